@@ -165,6 +165,8 @@ func runC07(c *Ctx) {
 	r.Doc("E8", "(= B9, B11) actual changes only by +1 per send, -1 per received release, delete at zero", 8)
 	r.Doc("E10", "the scheduler's idle pause is a small constant (closed inputs are observed, and termination signalled, promptly)", 2)
 	r.Doc("E13", "outside selects the scheduler waits only for releases, the inner discipline, a tick of a ticker that only the entry's deferred clean-up stops, or a short constant time.After", 3)
+	r.Doc("E14", "every channel the discipline makes and hands out through an exported method is closed by a defer of its goroutine entry (v2)", 2)
+	r.Doc("E15", "(= N2) the scheduler blocks for a release only when the round-start calculation could not proceed, or in the final wait-for-zero", 3)
 	r.Doc("E11", "(= X1) every configured / added input is registered in the table under its own key, unconditionally", 4)
 	r.Doc("E12", "(= X9) v1 Simple: the supervising goroutine waits only for stop, cancel, the graceful request and the inner discipline's end", 7)
 	r.Doc("E9", "the error channel never delays termination: made with capacity >= 1 and written at most once per goroutine (reading Err() is optional)", 3)
@@ -186,6 +188,19 @@ func runC07(c *Ctx) {
 		c07errChannel(c, p)
 		checkConstantIdleSleep(c, sr, "E10")
 		checkSchedulerWaits(c, sr, "E13")
+		// E15 (= N2): a blocking wait for a release is reached only when the round-start calculation
+		// could not proceed (something is in flight) or in the final wait-for-zero: anywhere else the
+		// scheduler may park with nothing in flight, and then observes neither closed inputs nor the
+		// graceful request
+		if pr, err := resolvePrio(p); err == nil {
+			sub := &Ctx{V1: c.V1, V2: c.V2, Tier: c.Tier, R: NewReport("tmp", c.Tier)}
+			checkN2(sub, pr)
+			for _, o := range sub.R.Obls {
+				if o.Rule == "N2" && strings.Contains(o.Key, "#release-wait") {
+					c.R.Check(o.OK, "E15", o.Key, o.Site, o.Detail, o.Detail)
+				}
+			}
+		}
 		// E8: `actual` is only changed by +1 on a successful send, -1 per received release and (v1)
 		// deletion at zero - otherwise termination is signalled with items unreleased
 		if pr, err := resolvePrio(p); err == nil {
@@ -213,6 +228,8 @@ func runC07(c *Ctx) {
 	}
 	signalRules(c, c.V1, "E5")
 	signalRules(c, c.V2, "E5")
+	isPrio := func(d *Disc) bool { return strings.HasPrefix(d.Rel, "priority") }
+	checkExposedClosed(c, c.V2, "E14", isPrio) // (the property asks this of v2 only: v1 signals termination by GracefulStop/Stop returning)
 	checkSupervisorWaits(c, c.V1, "E12")
 	// E7
 	if d := c.V1.Disc("priority.Simple"); d != nil {
